@@ -240,6 +240,18 @@ def run_harness_replay(harness, lines, env=None, timeout=3600):
     return [l for l in p.stdout.split("\n") if l]
 
 
+def _big_stack():
+    """the extracted model is not tail-recursive everywhere (list functions over 10^5 accrual parts): give kmodel the
+    largest stack the system allows instead of the 8 MB default"""
+    import resource
+    try:
+        soft, hard = resource.getrlimit(resource.RLIMIT_STACK)
+        want = hard if hard != resource.RLIM_INFINITY else 4 << 30
+        resource.setrlimit(resource.RLIMIT_STACK, (want, hard))
+    except Exception:
+        pass
+
+
 def run_kmodel(lines, timeout=3600, shards=16):
     """feeds case lines to kmodel (sharded over processes); returns dict id -> (model, spec)"""
     if not lines:
@@ -248,7 +260,7 @@ def run_kmodel(lines, timeout=3600, shards=16):
     chunks = [lines[i::shards] for i in range(shards)]
     procs = []
     for ch in chunks:
-        p = subprocess.Popen([KMODEL], stdin=subprocess.PIPE, stdout=subprocess.PIPE, text=True)
+        p = subprocess.Popen([KMODEL], stdin=subprocess.PIPE, stdout=subprocess.PIPE, text=True, preexec_fn=_big_stack)
         procs.append((p, ch))
     res = {}
     import threading
